@@ -53,6 +53,7 @@ type C09Result struct {
 	Samples     []C09Case      `json:"samples,omitempty"`
 	SampleOut   []string       `json:"sample_outcomes,omitempty"`
 	DeviceReads int            `json:"device_reads"`
+	Digest      uint64         `json:"digest"`
 }
 
 func stateDev(state string, seed uint64) *plan.Dev {
@@ -211,6 +212,10 @@ func RunC09(job *C09Job, d *dev.Dev, cases []C09Case) *C09Result {
 	one := func(c C09Case) {
 		o, class, detail := RunC09Case(&c, d)
 		res.Cases++
+		for _, ch := range []byte(o.Out + "|" + o.Err + "|" + o.Panic + "|" + class) {
+			res.Digest = fnv(res.Digest, uint64(ch))
+		}
+		res.Digest = fnv(res.Digest, uint64(d.Pos))
 		if c.Kind == "count" {
 			res.CountCases++
 			res.ByState[c.State]++
